@@ -249,3 +249,62 @@ def json_wrapper_key(sx, n):
             ok.append(sx.Implies(sx.eq(key, name), type(out.value) is cls))
     ok.append(sx.Or(*[sx.eq(key, name) for name in want if len(name) == n]))
     return sx.And(*ok)
+
+
+# ---------------------------------------------------------------- binary scalars (YAML !!binary, msgpack bin)
+from spyne.protocol.yaml import YamlDocument
+from spyne.protocol.msgpack import MessagePackDocument
+
+BPROTS = {'yaml': YamlDocument(app=APP), 'yaml soft': YamlDocument(app=APP, validator='soft'),
+          'msgpack': MessagePackDocument(app=APP), 'msgpack soft': MessagePackDocument(app=APP, validator='soft')}
+BPOS = {'s': (str,), 'base.u': (str,), 'bases[0].u': (str,), 'n': (int,), 'when': (datetime.date,), 'flag': (bool,)}
+
+
+@harness('C04', params=[(pr, pos) for pr in sorted(BPROTS) for pos in sorted(BPOS)], label=lambda p: '%s pos=%s' % p,
+         functions=['spyne.protocol.dictdoc.hier.HierDictDocument._from_dict_value',
+                    'spyne.protocol._inbase.InProtocolBase.unicode_from_bytes',
+                    'spyne.protocol._inbase.InProtocolBase.from_bytes'],
+         bounds={'document': 'a member, a nested field or a field of an array element carries a native binary scalar (YAML '
+                             '!!binary, msgpack bin) of 0..2 symbolic printable ASCII bytes where text, a number, a date or a '
+                             'boolean is declared'})
+def dictdoc_binary_scalar(sx, p):
+    """a binary scalar sent for a member is decoded to the declared native type or refused - user code never sees bytes"""
+    pr, pos = p
+    prot = BPROTS[pr]
+    n = sx.choose('blen', [1, 0, 2])
+    v = sx.text('v', n, lo=0x20, hi=0x7e, bytes_=True) if n else b''
+    if pos.startswith('base.'):
+        doc = {'base': {pos[5:]: v}}
+    elif pos.startswith('bases[0].'):
+        doc = {'bases': [{pos.split('.')[1]: v}]}
+    else:
+        doc = {pos: v}
+    try:
+        out = run_soft(lambda: prot._doc_to_object(CTX, Holder, doc, prot.validator))
+    except Exception as e:
+        sx.outside('non-fault exception %s escapes (counted under C10)' % type(e).__name__)
+    sx.observe('accepted', out.accepted)
+    if not out.accepted:
+        return is_client_validation_fault(out.fault)
+    h = out.value
+    if pos.startswith('base.'):
+        got = getattr(h.base, pos[5:])
+    elif pos.startswith('bases[0].'):
+        got = getattr(h.bases[0], pos.split('.')[1])
+    else:
+        got = getattr(h, pos)
+    return _admissible(got, BPOS[pos])
+
+
+# ---------------------------------------------------------------- SOAP header slots
+from harness import C01_xmlwire as _h1
+
+_hh = _h1.soap_headers.harness
+
+
+@harness('C04', params=_hh.params, label=_hh.label, functions=['spyne.protocol.soap.soap11.Soap11.deserialize'],
+         bounds={'headers': 'three declared header classes, each present or absent, in declared or reversed order; leaves symbolic'})
+def soap_header_slots(sx, p):
+    """each slot of ctx.in_header holds None or an instance of the class declared for that slot, whichever headers
+    the request carries"""
+    return _h1._soap_headers(sx, p, types_only=True)
